@@ -101,6 +101,8 @@ pub struct Knobs {
     /// only this action id parks (None = all)
     pub reducer_gate_only: Option<u32>,
     pub effect_gate: Option<Gate>,
+    /// index of the reducer that parks on `reducer_gate` (default 0)
+    pub gate_idx: u32,
 }
 
 pub struct ScriptReducer {
@@ -155,7 +157,7 @@ impl Reducer<St, Act> for ScriptReducer {
     fn reduce(&self, state: &St, action: &Act) -> DispatchOp<St, Act> {
         let mut out = state.0.clone();
         out.push(mark(self.idx, action.id));
-        let keep = action.keep_mask & (1 << self.idx) != 0;
+        let keep = self.idx < 8 && action.keep_mask & (1u8 << self.idx) != 0;
         log(Ev::Cb {
             kind: "reduce",
             comp: self.idx,
@@ -164,7 +166,7 @@ impl Reducer<St, Act> for ScriptReducer {
             out: out.clone(),
             x: keep as i64,
         });
-        if self.idx == 0 {
+        if self.idx == self.knobs.gate_idx {
             if let Some(g) = self.knobs.reducer_gate {
                 if self.knobs.reducer_gate_only.map(|a| a == action.id).unwrap_or(true) {
                     g.pass();
@@ -424,16 +426,17 @@ pub fn dispatch_via_dispatcher(store: &Store, a: Act) -> bool {
     r.is_ok()
 }
 
-pub fn stop(store: &StoreImpl<St, Act>) {
-    log(Ev::Call { op: "stop", a: 0 });
+/// `tag` = 10 * store index (so logs of several stores can be told apart)
+pub fn stop(store: &StoreImpl<St, Act>, tag: i64) {
+    log(Ev::Call { op: "stop", a: tag });
     store.stop();
-    log(Ev::Ret { op: "stop", a: 0, ok: true, st: vec![] });
+    log(Ev::Ret { op: "stop", a: tag, ok: true, st: vec![] });
 }
 
-pub fn close(store: &StoreImpl<St, Act>) {
-    log(Ev::Call { op: "close", a: 0 });
+pub fn close(store: &StoreImpl<St, Act>, tag: i64) {
+    log(Ev::Call { op: "close", a: tag });
     store.close();
-    log(Ev::Ret { op: "close", a: 0, ok: true, st: vec![] });
+    log(Ev::Ret { op: "close", a: tag, ok: true, st: vec![] });
 }
 
 pub fn get_state(store: &StoreImpl<St, Act>, tag: i64) -> St {
